@@ -128,7 +128,10 @@ func otpCands(w *world.World, pid string, accounts []string, rich bool) []cand {
 			cs = append(cs, cand{"otp:of(" + short(o) + ")", s.Val})
 		}
 	}
-	if s := t.Newest("otp", pid, true); s != nil {
+	if s := t.NewestUsed("otp", pid); s != nil {
+		cs = append(cs, cand{"otp:used", s.Val})
+	}
+	if s := t.NewestDeadUnused("otp", pid); s != nil {
 		cs = append(cs, cand{"otp:dead", s.Val})
 	}
 	if rich {
@@ -200,7 +203,10 @@ func rcCands(w *world.World, pid string, accounts []string, rich bool) []cand {
 			cs = append(cs, cand{"rc:of(" + short(o) + ")", l[0].Val})
 		}
 	}
-	if s := t.Newest("rc", pid, true); s != nil {
+	if s := t.NewestUsed("rc", pid); s != nil {
+		cs = append(cs, cand{"rc:used", s.Val})
+	}
+	if s := t.NewestDeadUnused("rc", pid); s != nil {
 		cs = append(cs, cand{"rc:dead", s.Val})
 	}
 	if rich {
